@@ -67,6 +67,11 @@ def handle (op : String) (a : Json) : Option R :=
       pure (jFloats (eulerToMatF upper (axes.zip angles)).toList)
   | "c07.eulerFrom" => some do
       pure (jFloats (eulerFromMatF (← m3Of (← getFloats a "m"))))
+  | "c07.eulerFrom2" => some do
+      -- 2×2 input: embedded as the upper-left block of the identity, then as for 3×3
+      match (← getFloats a "m") with
+      | [p, q, r, t] => pure (jFloats (eulerFromMatF (embed2 ⟨p, q, r, t⟩)))
+      | _ => throw "BadArg:m2"
   | "c07.numRandom" => some do
       pure (jNat (numRandom (← getExactF a "angle") (← getNat a "dim")))
   | "c07.fixRotations" => some do
